@@ -1,6 +1,7 @@
 /-
 C11 — input grammar: accept exactly the documented language, report every violation.
 -/
+import GontainerModel.Lemmas.C11Aux
 import GontainerModel.Lemmas.Grammar
 import GontainerModel.Model.Validate
 import GontainerModel.Props.Pins
@@ -37,8 +38,6 @@ theorem name_positions :
     Generated.re_input_regexServiceCallName = Rx.goToken ∧ Generated.re_input_regexServiceFieldName = Rx.goToken :=
   ⟨rfl, rfl, rfl, rfl, rfl, rfl, rfl, rfl, rfl, rfl⟩
 
-theorem pfx_nil (p : String) (e : Errs) : Errs.pfx p e = [] ↔ e = [] := by simp [Errs.pfx]
-
 /-- **no masking between sections**: the configuration is accepted iff every section is -/
 theorem validate_sections (v : String) (i : Input) :
     validate v i = [] ↔
@@ -46,21 +45,6 @@ theorem validate_sections (v : String) (i : Input) :
       validateServices i = [] ∧ validateDecorators i = [] := by
   unfold validate
   simp [List.append_eq_nil_iff, and_assoc]
-
-theorem rx_yaml (s : String) : rx Rx.yamlToken s = Grammar.yamlToken s.toList := by
-  unfold rx
-  have := Re.accepts_iff Rx.yamlToken s.toList
-  rw [Grammar.yamlToken_iff] at this
-  cases h1 : Re.accepts Rx.yamlToken s.toList <;> cases h2 : Grammar.yamlToken s.toList <;> simp_all
-
-theorem rx_go (s : String) : rx Rx.goToken s = Grammar.goToken s.toList := by
-  unfold rx
-  have := Re.accepts_iff Rx.goToken s.toList
-  rw [Grammar.goToken_iff] at this
-  cases h1 : Re.accepts Rx.goToken s.toList <;> cases h2 : Grammar.goToken s.toList <;> simp_all
-
-theorem unsupported_nil (n : String) (v : Val) : unsupported n v = [] ↔ v.isPrimitive = true := by
-  cases v <;> simp [unsupported, Val.isPrimitive]
 
 /-- **parameters: exact and complete** — accepted iff every name is a YAML token and every value a
 primitive; -/
